@@ -97,3 +97,12 @@ Definition pf_xpub := Eval vm_compute in
              let '(panicked, lock_err, unlock_err, enc, leak) := c in
              negb panicked && lock_err && unlock_err && negb enc && negb leak) cases_xpub.
 Print pf_xpub.
+
+(* wallet.Service on encrypted wallets of every type: after every service call the
+   locked wallet in memory and its file hold no secret, Unlock with the right
+   password restores a valid secret for every entry, a wrong password is refused *)
+Definition pf_service := Eval vm_compute in
+  failing (fun c : bool * bool * bool * bool * bool =>
+             let '(panicked, leak_mem, leak_file, restore_ok, wrong_refused) := c in
+             negb panicked && negb leak_mem && negb leak_file && restore_ok && wrong_refused) cases_service.
+Print pf_service.
